@@ -24,6 +24,9 @@ CHECKS = {
 
 NOT_YET = {}
 
+# checks that are finished and verified on the unchanged tree (builders' entries are merged only when listed here)
+READY = {"C02", "C03", "C06", "C07", "C12", "C15", "C17", "C18", "C19", "C20"}
+
 ALL = ["C%02d" % i for i in range(1, 21)]
 
 
@@ -31,7 +34,8 @@ def main():
     import glob
     for extra in sorted(glob.glob(os.path.join(ROOT, "manifest.d", "*.json"))):
         d = json.load(open(extra))
-        CHECKS[d["property_id"]] = d
+        if d["property_id"] in READY:
+            CHECKS[d["property_id"]] = d
     checks = []
     for pid in ALL:
         if pid not in CHECKS:
